@@ -183,10 +183,10 @@ def _prepared_body(fn):
     return _sink(body) or [ast.copy_location(ast.Pass(), fn)]
 
 
-def _eligible(fn, decorators_ok=("staticmethod",)):
+def _eligible(fn, decorators_ok=("staticmethod",), private=True):
     if not isinstance(fn, ast.FunctionDef):
         return False
-    if not fn.name.startswith("_") or fn.name.startswith("__"):
+    if (private and not fn.name.startswith("_")) or fn.name.startswith("__"):
         return False
     for d in fn.decorator_list:
         if not (isinstance(d, ast.Name) and d.id in decorators_ok):
@@ -286,10 +286,59 @@ class Inliner:
         self.funcs = {}     # name -> FunctionDef (module level)
         self.methods = {}   # (class name, method name) -> FunctionDef
         self.expanded = 0
+        self.records = {}   # name of a new private record class -> (ClassDef, __init__, [field names])
+        self.local_types = {}  # within the function being processed: local name -> record class name
+
+    def _record_class(self, node):
+        """(init, fields) when the class is a plain record the rules do not know: no bases but object, no decorators, a body of
+        methods (+ docstring / __slots__), an __init__ that only stores `self.<field> = <expr>` in a straight line."""
+        if node.decorator_list or node.keywords or any(not (isinstance(b, ast.Name) and b.id == "object") for b in node.bases):
+            return None
+        if not node.name.startswith("_") or any(k.startswith(node.name + ".") for k in self.known):
+            return None
+        init = None
+        for m in node.body:
+            if isinstance(m, ast.Expr) and isinstance(m.value, ast.Constant):
+                continue
+            if isinstance(m, ast.Assign) and len(m.targets) == 1 and isinstance(m.targets[0], ast.Name) and m.targets[0].id == "__slots__":
+                continue
+            if isinstance(m, ast.FunctionDef) and not m.decorator_list and (m.name == "__init__" or not (m.name.startswith("__") and m.name.endswith("__"))):
+                if m.name == "__init__":
+                    init = m
+                continue
+            return None
+        if init is None or init.args.vararg or init.args.kwarg or init.args.kwonlyargs or not init.args.args:
+            return None
+        me = init.args.args[0].arg
+        fields = []
+        for st in init.body:
+            if isinstance(st, ast.Pass) or (isinstance(st, ast.Expr) and isinstance(st.value, ast.Constant)):
+                continue
+            if isinstance(st, ast.Assign) and len(st.targets) == 1 and isinstance(st.targets[0], ast.Attribute) and isinstance(st.targets[0].value, ast.Name) \
+                    and st.targets[0].value.id == me:
+                # the value may read parameters and fields stored earlier, nothing else of self
+                okv = all(not (isinstance(x, ast.Name) and x.id == me) or any(isinstance(a_, ast.Attribute) and a_.value is x and a_.attr in fields for a_ in ast.walk(st.value))
+                          for x in ast.walk(st.value))
+                if not okv:
+                    return None
+                if st.targets[0].attr not in fields:
+                    fields.append(st.targets[0].attr)
+                continue
+            return None
+        return init, fields
 
     def collect(self):
         if self.known is None:
             return
+        for node in self.tree.body:
+            if isinstance(node, ast.ClassDef):
+                r = self._record_class(node)
+                if r is not None:
+                    self.records[node.name] = (node, r[0], r[1])
+                    for m in node.body:
+                        # the methods of a private record class are private whatever their names
+                        if isinstance(m, ast.FunctionDef) and m is not r[0] and _eligible(m, private=False):
+                            self.methods[(node.name, m.name)] = m
         for node in self.tree.body:
             if isinstance(node, ast.FunctionDef) and node.name not in self.known and _eligible(node):
                 self.funcs[node.name] = node
@@ -320,6 +369,8 @@ class Inliner:
             h = self.methods[(cls_name, f.attr)]
             static = any(isinstance(d, ast.Name) and d.id == "staticmethod" for d in h.decorator_list)
             return h, (None if static else f.value)
+        if isinstance(f, ast.Attribute) and isinstance(f.value, ast.Name) and f.value.id in self.local_types and (self.local_types[f.value.id], f.attr) in self.methods:
+            return self.methods[(self.local_types[f.value.id], f.attr)], f.value
         return None, None
 
     def _find(self, st, cls_name, self_name):
@@ -517,13 +568,153 @@ class Inliner:
             i += 1
         return changed
 
+    def _record_locals(self, fn):
+        """local name -> record class, for locals of fn bound exactly once, by `v = <record class>(...)`, and never stored to elsewhere
+        (nested functions included)"""
+        if not self.records:
+            return {}
+        params = {a.arg for a in fn.args.posonlyargs + fn.args.args + fn.args.kwonlyargs} | {a.arg for a in (fn.args.vararg, fn.args.kwarg) if a is not None}
+        stores = {}
+        for x in ast.walk(fn):
+            if isinstance(x, ast.Name) and isinstance(x.ctx, (ast.Store, ast.Del)):
+                stores[x.id] = stores.get(x.id, 0) + 1
+            elif isinstance(x, (ast.Global, ast.Nonlocal)):
+                for n_ in x.names:
+                    stores[n_] = stores.get(n_, 0) + 2
+            elif isinstance(x, ast.ExceptHandler) and x.name:
+                stores[x.name] = stores.get(x.name, 0) + 2
+            elif isinstance(x, ast.arg) and x is not None:
+                pass
+        out = {}
+        for x in _own_walk(fn):
+            if isinstance(x, ast.Assign) and len(x.targets) == 1 and isinstance(x.targets[0], ast.Name) and isinstance(x.value, ast.Call) \
+                    and isinstance(x.value.func, ast.Name) and x.value.func.id in self.records:
+                v = x.targets[0].id
+                if stores.get(v) == 1 and v not in params:
+                    # nested functions must not have a parameter / local of the same name
+                    shadow = any(isinstance(y, (ast.FunctionDef, ast.AsyncFunctionDef, ast.Lambda)) and y is not fn
+                                 and any(a.arg == v for a in y.args.posonlyargs + y.args.args + y.args.kwonlyargs + [z for z in (y.args.vararg, y.args.kwarg) if z is not None])
+                                 for y in ast.walk(fn))
+                    if not shadow:
+                        out[v] = x.value.func.id
+        return out
+
+    def _scalar_replace(self, fn):
+        """`v = K(args)` with K a record class, every other use of v an attribute access of one of K's fields: the object is
+        replaced by one local per field (`v__field`), its __init__ by the assignments it makes."""
+        done = False
+        for v, kname in sorted(self.local_types.items()):
+            node, init, fields = self.records[kname]
+            names = [x for x in ast.walk(fn) if isinstance(x, ast.Name) and x.id == v]
+            attr_of = {id(a.value): a for a in ast.walk(fn) if isinstance(a, ast.Attribute) and isinstance(a.value, ast.Name) and a.value.id == v}
+            own_ids = {id(x) for x in _own_walk(fn)}
+            binding = None
+            ok = True
+            for x in names:
+                if isinstance(x.ctx, ast.Store):
+                    binding = x
+                    continue
+                a = attr_of.get(id(x))
+                if a is None or a.attr not in fields or isinstance(a.ctx, ast.Del):
+                    ok = False
+                elif isinstance(a.ctx, ast.Store) and id(a) not in own_ids:
+                    ok = False   # a nested function would need `nonlocal`
+            if not ok or binding is None:
+                continue
+            new_names = {f_: "%s__%s" % (v, f_) for f_ in fields}
+            if any(isinstance(x, ast.Name) and x.id in new_names.values() for x in ast.walk(fn)):
+                continue
+            # the constructor call: bind __init__'s parameters
+            asg = next(x for x in _own_walk(fn) if isinstance(x, ast.Assign) and x.targets and x.targets[0] is binding)
+            call = asg.value
+            a_ = init.args
+            params = [z.arg for z in a_.posonlyargs + a_.args][1:]
+            me = (a_.posonlyargs + a_.args)[0].arg
+            if any(isinstance(z, ast.Starred) for z in call.args) or any(k.arg is None for k in call.keywords) or len(call.args) > len(params):
+                continue
+            bound = dict(zip(params, call.args))
+            bad = False
+            for k in call.keywords:
+                if k.arg in bound or k.arg not in params:
+                    bad = True
+                bound[k.arg] = k.value
+            defaults = dict(zip(reversed(params), reversed(a_.defaults)))
+            for p_ in params:
+                if p_ not in bound:
+                    if p_ in defaults and isinstance(defaults[p_], ast.Constant):
+                        bound[p_] = defaults[p_]
+                    else:
+                        bad = True
+            if bad:
+                continue
+            stmts = []
+            pmap = {}
+            for p_ in params:
+                if isinstance(bound[p_], (ast.Name, ast.Constant)):
+                    pmap[p_] = bound[p_]
+                else:
+                    t_ = "%s__arg_%s" % (v, p_)
+                    st_ = ast.Assign(targets=[ast.Name(id=t_, ctx=ast.Store())], value=bound[p_])
+                    stmts.append(st_)
+                    pmap[p_] = ast.Name(id=t_, ctx=ast.Load())
+
+            class Sub(ast.NodeTransformer):
+                def visit_Attribute(self, n):
+                    if isinstance(n.value, ast.Name) and n.value.id == me and n.attr in new_names:
+                        return ast.copy_location(ast.Name(id=new_names[n.attr], ctx=n.ctx), n)
+                    self.generic_visit(n)
+                    return n
+
+                def visit_Name(self, n):
+                    if n.id in pmap and isinstance(n.ctx, ast.Load):
+                        return ast.copy_location(copy.deepcopy(pmap[n.id]), n)
+                    return n
+            for st in init.body:
+                if isinstance(st, ast.Assign):
+                    stmts.append(Sub().visit(copy.deepcopy(st)))
+            for st_ in stmts:
+                for y in ast.walk(st_):
+                    ast.copy_location(y, asg)
+
+            class Rep(ast.NodeTransformer):
+                def visit_Attribute(self, n):
+                    if isinstance(n.value, ast.Name) and n.value.id == v and n.attr in new_names:
+                        return ast.copy_location(ast.Name(id=new_names[n.attr], ctx=n.ctx), n)
+                    self.generic_visit(n)
+                    return n
+            # replace the binding statement in whichever block holds it
+            def put(block):
+                for i_, st in enumerate(block):
+                    if st is asg:
+                        block[i_:i_ + 1] = stmts
+                        return True
+                    for field in ("body", "orelse", "finalbody"):
+                        b_ = getattr(st, field, None)
+                        if isinstance(b_, list) and b_ and isinstance(b_[0], ast.stmt) and not isinstance(st, (ast.FunctionDef, ast.AsyncFunctionDef, ast.ClassDef)) and put(b_):
+                            return True
+                    if isinstance(st, ast.Try):
+                        for h in st.handlers:
+                            if put(h.body):
+                                return True
+                return False
+            if not put(fn.body):
+                continue
+            Rep().visit(fn)
+            self.expanded += 1
+            done = True
+        return done
+
     def _process_function(self, fn, cls_name):
         self_name = fn.args.args[0].arg if (cls_name is not None and fn.args.args and not any(isinstance(d, ast.Name) and d.id == "staticmethod" for d in fn.decorator_list)) else None
+        self.local_types = self._record_locals(fn)
         self._process_block(fn.body, cls_name, self_name)
         for x in _own_walk(fn):
             if isinstance(x, (ast.FunctionDef, ast.AsyncFunctionDef)):
                 # nested functions see the enclosing method's self as a closure variable
                 self._process_nested(x, cls_name, self_name)
+        if self.local_types:
+            self._scalar_replace(fn)
+        self.local_types = {}
 
     def _process_nested(self, fn, cls_name, self_name):
         self._process_block(fn.body, cls_name, self_name)
@@ -533,7 +724,7 @@ class Inliner:
 
     def run(self):
         self.collect()
-        if not self.funcs and not self.methods:
+        if not self.funcs and not self.methods and not self.records:
             return self.tree
         for node in self.tree.body:
             if isinstance(node, (ast.FunctionDef, ast.AsyncFunctionDef)):
@@ -564,6 +755,10 @@ class Inliner:
                         node.body.remove(fn)
                         if not node.body:
                             node.body.append(ast.copy_location(ast.Pass(), node))
+        for kname, (node, init, fields) in self.records.items():
+            if node in self.tree.body and not any(isinstance(x, ast.Name) and x.id == kname for x in ast.walk(self.tree)) \
+                    and not any(isinstance(x, ast.Constant) and x.value == kname for x in ast.walk(self.tree)):
+                self.tree.body.remove(node)
         ast.fix_missing_locations(self.tree)
         return self.tree
 
